@@ -65,6 +65,7 @@ func (e *Engine) discharge(obls []*Obligation, outDir string, timeoutS, workers 
 		go func(i int) {
 			defer wg.Done()
 			defer func() { <-sem2 }()
+			e.forget(res[i].o)
 			r2 := e.solve(res[i].o, outDir, 80000+i, 3*timeoutS, false)
 			r2.Detail = "retried after a timeout: " + r2.Detail
 			res[i].r = r2
